@@ -222,7 +222,14 @@ def run_scenario(args):
         st = env.current_state
         for step in range(12 if tier == "quick" else 60):
             try:
-                m = [int(x) for x in env.get_action_mask()]
+                m_arr = env.get_action_mask()
+                m = [int(x) for x in m_arr]
+                # what the caller does with the array it was handed (masking agents edit it in place) must not reach the
+                # next query
+                try:
+                    m_arr[...] = 1 - np.asarray(m_arr)
+                except Exception:
+                    pass
             except Exception as e:
                 m = ["exception", type(e).__name__]
             add("MASK " + " ".join(map(str, C.dyn_of(env, env.current_state))), m, "C11", "action mask")
